@@ -1270,6 +1270,7 @@ func (p *Parser) wordPart() WordPart {
 		if ar.Bracket {
 			if p.tok != rightBrack {
 				if p.recoverError() {
+					p.postNested(old)
 					ar.Right = recoveredPos
 					return ar
 				}
@@ -2597,6 +2598,12 @@ func (p *Parser) caseItems(stop string) (items []*CaseItem) {
 			if !p.got(or) {
 				p.curErr("case patterns must be separated with %#q", or)
 			}
+		}
+		if len(ci.Patterns) == 0 {
+			// We ran into EOF right after "(". Do not add an item without patterns,
+			// as [CaseItem.Pos] relies on there being one; the caller reports
+			// (or recovers from) the missing end of the case clause.
+			break
 		}
 		old := p.preNested(switchCase)
 		p.next()
